@@ -340,6 +340,38 @@ class Order:
                     return -1
                 if hi == 0:
                     return 2
+        # X - Y + c with a declared order fact between X and Y
+        if len(diff.lin) == 2 and sorted(k for _, k in diff.lin) == [-1, 1] and not getattr(self, "_busy2", False):
+            (p_, _), = [(at, k) for at, k in diff.lin if k == 1]
+            (n_, _), = [(at, k) for at, k in diff.lin if k == -1]
+            P_, N_ = Dim(0, {p_: 1}), Dim(0, {n_: 1})
+            self._busy2 = True
+            try:
+                c0 = self.cmp(P_, N_)
+            finally:
+                self._busy2 = False
+            if c0 == 1:  # P - N >= 1
+                lo = 1 + diff.c
+                if lo > 0:
+                    return 1
+                if lo == 0:
+                    return 3
+            elif c0 in (0, 3):  # P - N >= 0
+                if diff.c > 0:
+                    return 1
+                if diff.c == 0:
+                    return 3 if c0 == 3 else 0
+            if c0 == -1:  # P - N <= -1
+                hi = diff.c - 1
+                if hi < 0:
+                    return -1
+                if hi == 0:
+                    return 2
+            elif c0 in (0, 2):
+                if diff.c < 0:
+                    return -1
+                if diff.c == 0:
+                    return 2 if c0 == 2 else 0
         # a single min / max atom: compare with both of its arguments
         for x, y, flip in ((a, b, False), (b, a, True)):
             if x.c == 0 and len(x.lin) == 1:
